@@ -181,7 +181,19 @@ const (
 	// SpanTemporary indicates that a resource lifetime
 	// was started and ended in this file (CREATE and DROP).
 	SpanTemporary = SpanAdded | SpanDropped
+
+	// spanReplaced marks a resource that existed before this file, was dropped by
+	// it and then added again. Dropping it once more does not make it temporary.
+	spanReplaced ResourceSpan = 1 << 2
 )
+
+// added returns the span of a resource that is added after it had the given span.
+func added(s ResourceSpan) ResourceSpan {
+	if s == SpanDropped || s&spanReplaced != 0 {
+		return SpanAdded | spanReplaced
+	}
+	return SpanAdded
+}
 
 // SchemaSpan returns the span information for the schema.
 func (f *File) SchemaSpan(s *schema.Schema) ResourceSpan {
@@ -234,7 +246,7 @@ func (f *File) loadSpans() {
 				f.schemaSpan(c.S).state |= SpanDropped
 			case *schema.AddTable:
 				span := f.tableSpan(c.T)
-				span.state = SpanAdded
+				span.state = added(span.state)
 				for _, column := range c.T.Columns {
 					span.columns[column.Name] = SpanAdded
 				}
@@ -251,7 +263,7 @@ func (f *File) loadSpans() {
 				for _, c1 := range c.Changes {
 					switch c1 := c1.(type) {
 					case *schema.AddColumn:
-						span.columns[c1.C.Name] = SpanAdded
+						span.columns[c1.C.Name] = added(span.columns[c1.C.Name])
 					case *schema.DropColumn:
 						span.columns[c1.C.Name] |= SpanDropped
 					case *schema.AddIndex:
